@@ -188,3 +188,42 @@ def c14_generator_source_per_environment(F, rep):
                           "evaluated only under a condition inside the loop over the environments (cached across bindings)" if src else "not evaluated with the loop's environment at all"),
                       "comprehension_environments (mech_interpreter.lib)", sample={"loop_variable": loopvar, "source_calls": len(src)})
     rep.floor("C14-R5", "generator arms examined", n, 1)
+
+
+# ---------------------------------------------------------------- C16-R7
+def c16_pattern_value_pairing(F, rep):
+    rep.rule("C16-R7", "pattern matcher: sub-patterns are paired with the matched value's parts in order - both operands of every `zip` are plain forward iterators over "
+                       "a (sub)slice, and the suffix patterns are paired with the slice starting at len - suffix.len()")
+    REORDER = {"rev", "step_by", "chain", "cycle", "filter", "filter_map", "rposition", "sorted", "sort", "reverse"}   # skip(1) over a tag element is order-preserving and used by TupleStruct patterns
+    n = 0
+    for it in F.syn("mech_interpreter.lib"):
+        if it["k"] != "fn" or not it["mod"].endswith("patterns") or not it.get("body"):
+            continue
+        for lp in find(it["body"], "for"):
+            zips = [m for m in find(lp[2], "mcall") if m[2] == "zip" and m[4]]
+            for z in zips:
+                ops = [z[1], z[4][0]]
+                n += 1
+                bad = []
+                for o in ops:
+                    for m in find(o, "mcall"):
+                        if m[2] in REORDER:
+                            bad.append(m[2])
+                txt = render(z)
+                key = "%s:zip#%d" % (it["name"], n)
+                rep.check(not bad, "C16-R7", key if not bad else key + ":" + ",".join(sorted(set(bad))),
+                          "%s pairs patterns with values through `%s`: an operand is re-ordered or truncated (%s), so sub-pattern i no longer meets part i of the matched value" % (it["name"], txt[:90], sorted(set(bad))),
+                          "%s (mech_interpreter.lib)" % it["name"], sample={"fn": it["name"], "zip": txt[:120]})
+                # suffix pairing: values[START..] with START = values.len() - <suffix>.len()
+                if re.search(r"\bsuffix\b", render(ops[0])) or re.search(r"\bsuffix\b", render(ops[1])):
+                    other = ops[1] if re.search(r"\bsuffix\b", render(ops[0])) else ops[0]
+                    rng = [x for x in find(other, "range")]
+                    ok = False
+                    if rng and rng[0][1] is not None and rng[0][2] is None and is_node(rng[0][1]) and rng[0][1][0] == "path":
+                        start = rng[0][1][1]
+                        defs = [st[2] for st in find(it["body"], "let") if len(st) == 4 and st[2] is not None and st[1][0] == "pident" and st[1][1] == start]
+                        ok = any(re.sub(r"\s", "", render(d)) in ("(values.len()-pattern_array.suffix.len())", "values.len()-pattern_array.suffix.len()") or
+                                 re.match(r"^\(?\w+\.len\(\)-[\w.]*suffix\.len\(\)\)?$", re.sub(r"\s", "", render(d))) for d in defs)
+                    rep.check(ok, "C16-R7", key + ":suffix-anchored-at-len-minus-suffix",
+                              "%s: the suffix patterns are not paired with the slice `values[len - suffix.len()..]` (`%s`)" % (it["name"], render(other)[:60]), "%s (mech_interpreter.lib)" % it["name"])
+    rep.floor("C16-R7", "pattern/value zips in the matcher", n, 2)
